@@ -144,8 +144,17 @@ def contracts():
         d = SDict(so.U(), so.St(), dom=z3.K(so.U(), BoolVal(True)), name=name)
         return d
 
+    def xz_defaultdict(run, name, **kw):
+        # the documented calling style: defaultdict(lambda: value) - some (or all) nodes are not keys yet; reading inserts the default,
+        # a membership test does not
+        dv = fresh(name + '_default', so.St())
+        d = SDict(so.U(), so.St(), default=dv, name=name)
+        run.assume(so.forall(so.U(), lambda x: Implies(Not(d.dom[x]), d.val[x] == dv)))
+        return d
+
     cs.append(Contract(F, 'nonMarkov_directed_percolate_network',
-        cases=[Case('any', dict(G=T.graph(), xi=xz_total, zeta=xz_total, transmission=cb_transmission))],
+        cases=[Case('any', dict(G=T.graph(), xi=xz_total, zeta=xz_total, transmission=cb_transmission)),
+               Case('defaultdict-inputs', dict(G=T.graph(), xi=xz_defaultdict, zeta=xz_defaultdict, transmission=cb_transmission))],
         loops={0: lambda s, it: And(so.forall(so.U(), lambda x: Implies(it.done(x), s.H.nodes[x])),
                                    so.forall2(so.U(), so.U(), lambda u, v: s.H.adj[mk(u, v)] == And(it.done(u), xz_keep(s)(u, v)))),
                1: lambda s, it: And(so.forall(so.U(), lambda x: Implies(Or(it.outer.done(x), x == s.u), s.H.nodes[x])),
